@@ -25,7 +25,7 @@ Arguments cf_alg {T}. Arguments cf_from {T}. Arguments cf_default {T}. Arguments
 Arguments cf_missing {T}.
 
 (** a skipped field: only its default and [map] survive *)
-Record sfield := mkSF { sf_name : string; sf_default : fdefault; sf_map : option N }.
+Record sfield := mkSF { sf_name : string; sf_default : out; sf_map : option N }.
 
 Record cstruct (T : Type) := mkCS {
   cs_fields : list (cfield T);
